@@ -1981,6 +1981,36 @@ def rule_d11d(toks, log):
 
 
 # ---------------------------------------------------------------------------------------
+# D11f: `( & P ) OP X` -- parenthesised reference on the left, one identifier / literal on the right
+
+def rule_d11f(toks, log):
+    """`( & P ) OP X` as a complete expression, P a plain place path `id ( . id | . int )*`, X ONE identifier or literal (real
+    tokens only), preceded by `=`, `(`, `{`, `}`, `;`, `,` or an annotation and followed by `;`, `)`, `}`, `,` or an annotation
+    ==> `core::ops::Tr::m(( & P ), X)`.  Same reason and same justification as D11 / D11c (rational/src/third_party/
+    num_order.rs `(&self.denominator) % M127U`).  Any other shape is left untouched."""
+    out = list(toks)
+    i = 0
+    while i + 1 < len(out):
+        t = out[i]
+        if t[0] == 'p' and t[1] == '(' and not t[2] and _is(out[i + 1], '&') and not out[i + 1][2] \
+                and (i == 0 or out[i - 1][2] or (out[i - 1][0] == 'p' and out[i - 1][1] in ('=', '(', '{', '}', ';', ','))):
+            e0 = _place_path_end(out, i + 2)
+            if e0 is not None and e0 + 3 < len(out) and _is(out[e0], ')') and not out[e0][2] \
+                    and out[e0 + 1][0] == 'p' and out[e0 + 1][1] in _D11_OPS and not out[e0 + 1][2] \
+                    and out[e0 + 2][0] in ('id', 'lit', 'int', 'num') and not out[e0 + 2][2] and out[e0 + 2][1] not in ('mut', 'self'):
+                nxt = out[e0 + 3]
+                if nxt[2] or (nxt[0] == 'p' and nxt[1] in (';', ')', '}', ',')):
+                    op = out[e0 + 1][1]
+                    log.append('D11f `%s` -> core::ops::%s(..)' % (_txt(out[i:e0 + 3])[:80], _D11_OPS[op].replace(' ', '')))
+                    new = toks_of('core :: ops :: %s (' % _D11_OPS[op], False) + out[i:e0 + 1] + [T('p', ','), out[e0 + 2], T('p', ')')]
+                    out = out[:i] + new + out[e0 + 3:]
+                    i += len(new)
+                    continue
+        i += 1
+    return out
+
+
+# ---------------------------------------------------------------------------------------
 # D11e: overloaded arithmetic operator whose LEFT operand is the hoisted `&self` receiver of a non-primitive type
 
 def rule_d11e(toks, log):
@@ -2488,6 +2518,7 @@ def lower(toks, marks, opts=None):
     ts = rule_d11c(ts, log)
     ts = rule_d11d(ts, log)
     ts = rule_d11e(ts, log)
+    ts = rule_d11f(ts, log)
     ts = rule_d12(ts, log)
     ts = rule_d13(ts, log)
     ts = rule_d14(ts, log)
